@@ -12,6 +12,7 @@ one() {
  for d in /verif/seeded/$ID-*; do
   [ -f $d/patch.diff ] || continue
   k=${d##*/}
+  if python3 -c "import json,sys;sys.exit(0 if json.load(open(sys.argv[1])).get('verification',{}).get('retired') else 1)" $d/meta.json; then echo "$k retired"; continue; fi
   BY=$(python3 -c "import json,sys;print(json.load(open(sys.argv[1])).get('verification',{}).get('caught_by',sys.argv[2]))" $d/meta.json $ID)
   TAILN=3 tools/mutrun.sh $BY sr$$ $d/patch.diff > $OUT/$k.log 2>&1
   echo "$k $(tail -1 $OUT/$k.log | sed 's/.*: //')"
